@@ -42,12 +42,22 @@ def sha256_text(s):
 
 
 def load_known_findings(prop):
-  path = os.path.join(VERIF, "known_findings.json")
-  if not os.path.exists(path):
-    return []
-  with open(path) as f:
-    data = json.load(f)
-  return [e for e in data.get("findings", []) if e.get("property") == prop]
+  """Known findings live in known_findings.json and known_findings.d/*.json (committed; never
+  written at run time).  Entry: {"id", "property", "what", "match": {...}, "status"?}.  Entries
+  whose "status" starts with "fixed" suppress nothing."""
+  import glob
+  paths = [os.path.join(VERIF, "known_findings.json")] + \
+      sorted(glob.glob(os.path.join(VERIF, "known_findings.d", "*.json")))
+  out = []
+  for path in paths:
+    if not os.path.exists(path):
+      continue
+    with open(path) as f:
+      data = json.load(f)
+    for e in data.get("findings", []):
+      if e.get("property") == prop and not str(e.get("status", "")).startswith("fixed"):
+        out.append(e)
+  return out
 
 
 def _jsonable(x, depth=0):
